@@ -46,8 +46,27 @@ def ml_smt(ml, vars_: Vars) -> str:
 
 
 def _form_smt(form) -> str:
-    parts = [f"(* {_num(Fraction(c))} x{v})" for v, c in form]
+    parts = []
+    for m, c in form:
+        if m:
+            parts.append(f"(* {_num(Fraction(c))} " + " ".join(f"x{v}" for v in m) + ")")
+        else:
+            parts.append(_num(Fraction(c)))
     return parts[0] if len(parts) == 1 else "(+ " + " ".join(parts) + ")"
+
+
+def _form_vars(form):
+    return {v for m, _ in form for v in m}
+
+
+def _form_value(form, vals):
+    tot = Fraction(0)
+    for m, c in form:
+        t = Fraction(c)
+        for v in m:
+            t *= vals.get(v, Fraction(0))
+        tot += t
+    return tot
 
 
 def _decls(used, vars_: Vars):
@@ -179,7 +198,7 @@ def inner_vars(vars_: Vars, used):
         k = vars_.keys[v]
         if k[0] == "I":
             inner.add(v)
-            inner.update(x for x, _ in k[1])
+            inner.update(_form_vars(k[1]))
         elif k[0] == "R":
             inner.add(v)
     return inner
@@ -229,7 +248,7 @@ def _stage2(pairs, vars_: Vars, timeout_ms, seed):
                     fac.append(_form_smt(inv_forms[v]))
             parts.append("(* " + " ".join(fac) + ")" if len(fac) > 1 else fac[0])
         for v in deg:
-            used_inner.update(x for x, _ in inv_forms[v])
+            used_inner.update(_form_vars(inv_forms[v]))
         poly = parts[0] if len(parts) == 1 else "(+ " + " ".join(parts) + ")"
         lines.append(f"(declare-const g{n} Bool)")
         lines.append(f"(assert (= g{n} (not (= {poly} 0.0))))")
@@ -257,7 +276,7 @@ def _stage2(pairs, vars_: Vars, timeout_ms, seed):
             which = int(d.name()[1:])
             break
     for v, form in inv_forms.items():
-        den = sum(Fraction(c) * vals.get(x, Fraction(0)) for x, c in form)
+        den = _form_value(form, vals)
         if den == 0:
             return Verdict("unknown", stage=2, solver_s=dt, note="model hits a pole")
         vals[v] = 1 / den
